@@ -58,6 +58,30 @@ func (e *exprState) render(v ssa.Value, fr *exprFrame, depth int) string {
 			return e.render(fr.args[idx], fr.parent, depth+1)
 		}
 		return fmt.Sprintf("$p%d", idx)
+	case *ssa.FreeVar:
+		fn := x.Parent()
+		if mc := e.p.closureSite[fn]; mc != nil {
+			for i, fv := range fn.FreeVars {
+				if fv == x && i < len(mc.Bindings) {
+					return e.render(mc.Bindings[i], nil, depth+1)
+				}
+			}
+		}
+		return "freevar:" + x.Name()
+	case *ssa.Alloc:
+		// address of a local: its single stored value
+		var st *ssa.Store
+		n := 0
+		for _, r := range *x.Referrers() {
+			if s, ok := r.(*ssa.Store); ok && s.Addr == ssa.Value(x) {
+				st = s
+				n++
+			}
+		}
+		if n == 1 {
+			return e.render(st.Val, fr, depth+1)
+		}
+		return "local:" + x.Comment
 	case *ssa.Phi:
 		var parts []string
 		for _, ed := range x.Edges {
@@ -95,6 +119,9 @@ func (e *exprState) render(v ssa.Value, fr *exprFrame, depth int) string {
 			}
 			if g, ok := x.X.(*ssa.Global); ok {
 				return "global:" + g.Name()
+			}
+			if fv, ok := x.X.(*ssa.FreeVar); ok {
+				return e.render(fv, fr, depth+1)
 			}
 			return "*" + e.render(x.X, fr, depth+1)
 		}
